@@ -2712,3 +2712,33 @@ mod tests {
         );
     }
 }
+
+/// Forwarding wrappers over the builder's private canonicalization kernel.
+///
+/// Compiled only with the `verif-hooks` cargo feature; used by external
+/// verification harnesses.
+#[cfg(feature = "verif-hooks")]
+#[doc(hidden)]
+#[allow(missing_docs, clippy::missing_errors_doc)]
+pub mod verif_hooks_builder {
+    use super::{
+        DataType, DelaunayTriangulationBuilder, DelaunayTriangulationConstructionError, Vertex,
+    };
+    use crate::geometry::traits::coordinate::CoordinateScalar;
+    use crate::topology::traits::global_topology_model::ToroidalModel;
+    use crate::topology::traits::topological_space::ToroidalConstructionMode;
+
+    /// `DelaunayTriangulationBuilder::canonicalize_vertices` with a canonicalized-mode
+    /// [`ToroidalModel`] over `domain`.
+    pub fn canonicalize_vertices_toroidal<T, U, const D: usize>(
+        vertices: &[Vertex<T, U, D>],
+        domain: [f64; D],
+    ) -> Result<Vec<Vertex<T, U, D>>, DelaunayTriangulationConstructionError>
+    where
+        T: CoordinateScalar,
+        U: DataType,
+    {
+        let model = ToroidalModel::new(domain, ToroidalConstructionMode::Canonicalized);
+        DelaunayTriangulationBuilder::<'_, T, U, D>::canonicalize_vertices(vertices, &model)
+    }
+}
